@@ -248,6 +248,14 @@ func vrClosers(t *vcTrial) {
 		}
 	}()
 	wg.Add(1)
+	go func() { // somebody registering close callbacks while others close (a pool attaching its hook)
+		defer wg.Done()
+		for i := 0; i < 6; i++ {
+			c.AddCloseCallback(func(Connection) error { return nil })
+			runtime.Gosched()
+		}
+	}()
+	wg.Add(1)
 	go func() { // the one writer
 		defer wg.Done()
 		defer func() { recover() }() // D22: a writer racing Close may hit the recycled buffer; C08's finding, not a data race report
